@@ -1042,6 +1042,30 @@ func genEqual(ctx *Ctx, emit func(any, string)) {
 			}
 		}
 	}
+	// kinds against each other while BOTH stacks carry the same symbol, the
+	// same case-fold flag or the same delimiter (what Kind() displays must not
+	// stand in for the kind), at top level and nested
+	for _, sym := range []string{"", "&", "||"} {
+		for _, k1 := range kinds {
+			for _, k2 := range kinds {
+				for _, opt := range []int{0, 2} {
+					mk := func(k string, nested bool) *Node {
+						st := &Node{T: "stack", Kind: k, Sym: sym, Opt: opt, Els: []*Node{{T: "str", S: "a"}, {T: "int", I: 2}}}
+						if k == "LIST" {
+							st.Sym, st.Delim = "", sym
+						}
+						if nested {
+							return &Node{T: "stack", Kind: "AND", Els: []*Node{{T: "str", S: "x"}, st}}
+						}
+						return st
+					}
+					for _, nested := range []bool{false, true} {
+						emit(EqInput{A: mk(k1, nested), B: mk(k2, nested), Mut: "kind-same-symbol"}, "exhaustive")
+					}
+				}
+			}
+		}
+	}
 	// every ordered pair of catalogue kinds against each other (different
 	// values at the same position: only "equal or not" matters)
 	{
